@@ -23,7 +23,7 @@ func parseSchedules(values []string) ([]Schedule, error) {
 	var ret []Schedule
 
 	for _, v := range values {
-		parsed, err := cronParser.Parse(v)
+		parsed, err := parseCron(v)
 		if err != nil {
 			return nil, fmt.Errorf("%w: %s", errInvalidSchedule, err)
 		}
@@ -31,6 +31,18 @@ func parseSchedules(values []string) ([]Schedule, error) {
 	}
 
 	return ret, nil
+}
+
+// parseCron parses one cron expression. The cron parser panics on a
+// time-zone prefix that is not followed by a spec (e.g. "TZ=UTC"): report
+// that as an invalid expression.
+func parseCron(v string) (parsed cron.Schedule, err error) {
+	defer func() {
+		if r := recover(); r != nil {
+			err = fmt.Errorf("invalid cron expression %q: %v", v, r)
+		}
+	}()
+	return cronParser.Parse(v)
 }
 
 // parseScheduleMap parses the schedule map and populates the starts, stops,
@@ -98,7 +110,7 @@ func parseScheduleMap(
 		}
 
 		for _, v := range values {
-			if _, err := cronParser.Parse(v); err != nil {
+			if _, err := parseCron(v); err != nil {
 				return fmt.Errorf("%w: %s", errInvalidSchedule, err)
 			}
 			*targets = append(*targets, v)
